@@ -23,7 +23,13 @@
  *
  * output: <idx> A=<rc>:<tell> B=<rc>:<tell> O=<ready_state>:<link>:<ch>:<n1>:<tell> S=<status>:<decoded>:<lapout>
  *               N=<link2>:<ch2>:<n2>:<n>:<avail>:<follow> T=<tail verdict> L=<judged>:<nfail>:<first>:<ch>:<got>:<exp>:<last>:<ndiff>:<xlap>
- *               V=<vf1 later output verdict> H=<history rc list ok?>
+ *               V=<vf1 later output verdict> H=<history rc list ok?> Q=<rc of h1> F=<xf>:<pages>:<reads>:<off0> D=<hash of B's lap region>
+ * physical-layout axis (pylib/c19_phys.py): the kind letter may carry a read-callback cap, "S@97" / "X@1" = every read callback returns at most
+ *   that many bytes (all replays).  F= is measured on replay C while the lap source is read: <pages> pages lie between the page cursor
+ *   (vf->offset) before and after, <xf> of them belong to a foreign logical stream AND are followed, inside that range, by a page of the
+ *   decoded stream (the lap data could only be completed by stepping over them), <reads> read callbacks were needed; <off0> = page cursor
+ *   (vf->offset) at the old position.  D= hashes the first n
+ *   samples delivered after the lapped call (all channels, bit patterns): equal for every physical layout of the same logical stream.
  */
 #include "vfcommon.h"
 #include <math.h>
@@ -34,7 +40,7 @@ extern const float *_vorbis_window_get(int n);   /* lib/window.c: table for bloc
 #define MAXCH 8
 typedef struct { int link,ch; long n,cap; float *d[MAXCH]; } seg_t;
 typedef struct { int nseg; seg_t s[MAXSEG]; long total,first,err; } rt_t;
-typedef struct { int rs,k,ch,n1,status; long tell,dec,lap; float *d[MAXCH]; } src_t;
+typedef struct { int rs,k,ch,n1,status; long tell,dec,lap; float *d[MAXCH]; long xf,npg,nrd,off0; } src_t;
 enum { S_OK=0, S_EOSNOSTATE, S_NOSRC, S_ZERO, S_SHORT, S_ERR, S_OPENMID };
 static const char *s_names[]={"ok","eos_nostate","nosrc","zero","short","err","openmid"};
 
@@ -71,6 +77,23 @@ static void read_through(OggVorbis_File *vf,rt_t *r){
   }
 }
 
+static long g_case_cap=0;   /* read-callback cap of the current case (0 = none) */
+/* pages of the physical stream in [a,b): total, and foreign ones (serial != own) that are followed inside the range by a page of `own` */
+static void pages_between(vfile *F,long a,long b,long own,long *npg,long *xf){
+  long pos=a,pend=0; *npg=0; *xf=0;
+  if(a<0||b>F->len)return;
+  while(pos+27<=b){
+    const unsigned char *h=F->data+pos; long nseg,i,sz,serial;
+    if(memcmp(h,"OggS",4)){ pos++; continue; }
+    nseg=h[26]; if(pos+27+nseg>F->len){ pos++; continue; }
+    sz=27+nseg; for(i=0;i<nseg;i++)sz+=h[27+i];
+    if(pos+sz>b)break;
+    serial=(long)((unsigned long)h[14]|((unsigned long)h[15]<<8)|((unsigned long)h[16]<<16)|((unsigned long)h[17]<<24));
+    (*npg)++;
+    if(serial!=(own&0xffffffffL))pend++; else{ *xf+=pend; pend=0; }
+    pos+=sz;
+  }
+}
 static long g_h1rc=1;   /* return code of the last "h1" history op of the current case (1 = none) */
 static int plain_of(int c){ return c>='A'&&c<='Z'?c-'A'+'a':c; }
 /* one history / seek op; returns the library's return code */
@@ -94,7 +117,7 @@ static long do_op(OggVorbis_File *vf,const char *tok,int *bad){
 /* fresh handle + history.  hist is a space separated op list (may be empty).  rcs: hash of the return codes (replay determinism) */
 static int open_replay(OggVorbis_File *vf,memio *m,vfile *F,int half,const char *hist,h128 *rcs,int *bad){
   char buf[4096]; char *t,*sv; int orc;
-  mio_init(m,F->data,F->len);
+  mio_init(m,F->data,F->len); m->cap=g_case_cap;
   orc=ov_open_callbacks(m,vf,NULL,0,mio_cb_seekable);
   if(orc<0)return orc;
   if(half){ if(ov_halfrate(vf,1)){ ov_clear(vf); return -7777; } }
@@ -107,7 +130,7 @@ static int open_replay(OggVorbis_File *vf,memio *m,vfile *F,int half,const char 
 static void get_src(OggVorbis_File *vf,vfile *F,int hs,src_t *s){
   refdec *r=hs?&F->href:&F->ref; long idx,rem,want; vorbis_info *vi; int c;
   memset(s,0,sizeof(*s));
-  s->rs=vf->ready_state; s->tell=(long)ov_pcm_tell(vf); s->k=-1;
+  s->rs=vf->ready_state; s->tell=(long)ov_pcm_tell(vf); s->k=-1; s->off0=(long)vf->offset;
   if(vf->ready_state>=STREAMSET)s->k=vf->current_link;
   if(s->k<0){
     /* no decode state and no stream selected: at end of stream iff nothing more can be read */
@@ -121,11 +144,16 @@ static void get_src(OggVorbis_File *vf,vfile *F,int hs,src_t *s){
   for(c=0;c<s->ch;c++)s->d[c]=(float*)__real_calloc(s->n1+1,sizeof(float));
   idx=(s->tell-r->start[s->k])>>hs; rem=r->len[s->k]-idx; if(rem<0||s->tell<r->start[s->k])rem=0;
   want=rem<s->n1?rem:s->n1;
-  while(s->dec<want){
-    float **pcm; int bs=-1; long n=ov_read_float(vf,&pcm,(int)(want-s->dec),&bs);
-    if(n<=0||bs!=s->k){ s->status=S_ERR; return; }
-    for(c=0;c<s->ch;c++)memcpy(s->d[c]+s->dec,pcm[c],sizeof(float)*n);
-    s->dec+=n;
+  {
+    long off0=(long)vf->offset,own=vf->current_serialno; memio *mm=(memio*)vf->datasource; long rd0=mm->nread;
+    while(s->dec<want){
+      float **pcm; int bs=-1; long n=ov_read_float(vf,&pcm,(int)(want-s->dec),&bs);
+      if(n<=0||bs!=s->k){ s->status=S_ERR; return; }
+      for(c=0;c<s->ch;c++)memcpy(s->d[c]+s->dec,pcm[c],sizeof(float)*n);
+      s->dec+=n;
+    }
+    s->nrd=mm->nread-rd0;
+    if(vf->offset>off0)pages_between(F,off0,(long)vf->offset,own,&s->npg,&s->xf);
   }
   if(s->dec<s->n1){
     if(vf->ready_state==INITSET&&vf->current_link==s->k){
@@ -223,7 +251,7 @@ int main(int argc,char **argv){
     vfile *F1,*F2; struct itimerval it;
     OggVorbis_File va,vb,vb1,vc; memio ma,mb,mb1,mc; h128 ha,hb,hc,hb1; int oa,ob,oc,ob1=0;
     long rcA=0,rcB=0,tA=-1,tB=-1; rt_t RA,RB,RC1,RB1; src_t S; cmp_t cm; char vres[64]="-"; char hres[16]="ok";
-    long n2=0,n=0,avail=0; int k2=-1,ch2=0;
+    long n2=0,n=0,avail=0; int k2=-1,ch2=0; char dhex[40]="-";
     memset(&RA,0,sizeof(RA)); memset(&RB,0,sizeof(RB)); memset(&RC1,0,sizeof(RC1)); memset(&RB1,0,sizeof(RB1)); memset(&S,0,sizeof(S)); memset(&cm,0,sizeof(cm));
     /* split at '|' */
     p1=strchr(line,'|'); if(!p1){ continue; } *p1++=0;
@@ -232,6 +260,7 @@ int main(int argc,char **argv){
     if(p2){ size_t l=strlen(p2); while(l&&(p2[l-1]=='\n'||p2[l-1]==' '))p2[--l]=0; }
     tok=strtok_r(line," \n",&sv); if(!tok)continue; idx=atol(tok); g_cur_idx=idx;
     tok=strtok_r(NULL," \n",&sv); if(!tok){ printf("%ld BADCASE\n",idx); continue; } kind=tok[0];
+    g_case_cap=(tok[1]=='@')?atol(tok+2):0;
     tok=strtok_r(NULL," \n",&sv); if(!tok){ printf("%ld BADCASE\n",idx); continue; } f1=atoi(tok); f2=f1;
     if(kind=='X'){ tok=strtok_r(NULL," \n",&sv); if(!tok){ printf("%ld BADCASE\n",idx); continue; } f2=atoi(tok); }
     tok=strtok_r(NULL," \n",&sv); if(!tok){ printf("%ld BADCASE\n",idx); continue; } half=atoi(tok); hs=half?1:0; half1=half2=half;
@@ -287,14 +316,19 @@ int main(int argc,char **argv){
     n=(S.n1>0&&S.n1<n2)?S.n1:n2;
     if(rcA==0&&rcB==0&&RA.nseg>0&&S.n1>0){
       compare(&RA,&RB,&S,n,win_of(2*n),&cm);
+      { h128 hd; int si,c2; long g0=0; h_init(&hd); h_i64(&hd,n);
+        for(si=0;si<RB.nseg&&g0<n;si++){ seg_t *b=&RB.s[si]; long m2=b->n<n-g0?b->n:n-g0; h_i64(&hd,b->link); h_i64(&hd,b->ch); h_i64(&hd,m2);
+          for(c2=0;c2<b->ch;c2++)h_bytes(&hd,b->d[c2],sizeof(float)*m2);
+          g0+=b->n; }
+        h_hex(&hd,dhex); }
     }else if(rcA==0&&rcB==0){
       /* nothing follows the target (or the old state had no link): the two read-throughs must simply agree */
       same_rt(&RA,&RB,cm.tail,sizeof(cm.tail)); cm.first=cm.last=-1;
     }else{ strcpy(cm.tail,"-"); cm.first=cm.last=-1; }
     memset(&it,0,sizeof(it)); setitimer(ITIMER_VIRTUAL,&it,NULL);
-    printf("%ld A=%ld:%ld B=%ld:%ld O=%d:%d:%d:%d:%ld S=%s:%ld:%ld N=%d:%d:%ld:%ld:%ld:%ld T=%s L=%ld:%ld:%ld:%d:%.9g:%.9g:%ld:%ld:%ld V=%s H=%s Q=%ld\n",
+    printf("%ld A=%ld:%ld B=%ld:%ld O=%d:%d:%d:%d:%ld S=%s:%ld:%ld N=%d:%d:%ld:%ld:%ld:%ld T=%s L=%ld:%ld:%ld:%d:%.9g:%.9g:%ld:%ld:%ld V=%s H=%s Q=%ld F=%ld:%ld:%ld:%ld D=%s\n",
       idx,rcA,tA,rcB,tB,S.rs,S.k,S.ch,S.n1,S.tell,s_names[S.status],S.dec,S.lap,k2,ch2,n2,n,avail,RA.total,cm.tail,
-      cm.judged,cm.nfail,cm.first,cm.fch,(double)cm.got,cm.exp,cm.last,cm.ndiff,cm.xlap,vres,hres,g_h1rc);
+      cm.judged,cm.nfail,cm.first,cm.fch,(double)cm.got,cm.exp,cm.last,cm.ndiff,cm.xlap,vres,hres,g_h1rc,S.xf,S.npg,S.nrd,S.off0,dhex);
     fflush(stdout);
     rt_free(&RA); rt_free(&RB); rt_free(&RC1); rt_free(&RB1); src_free(&S);
   }
